@@ -1,7 +1,10 @@
 """C07 translator: facts about the CPU-times/percent code re-derived from the current source (ast only).
 
-Every extractor raises NotRecognised when the shape of the code is not the one it knows; the
-fact is then skipped (baseline kept) and the tie for it rests on the correspondence check.
+Round 3 (audit-driven): every fact has its OWN extractor (a shape one extractor no longer knows skips that fact only,
+never its neighbours) and extractors are TOTAL wherever the Lean type allows it: Bool facts answer `false`, string /
+list facts describe the shape they found (`"?<source text>"` items, which `Fld.ofName?` maps to `none`), so that the
+obligation theorem itself fails with the new value. Only numeric facts whose statement is gone raise NotRecognised
+(skipped; since the runner counts a skipped fact as a broken obligation that ends in the failing-input search too).
 """
 import ast
 
@@ -28,77 +31,147 @@ def _nested_def(fn, name):
     raise NotRecognised("nested function %s not found in %s" % (name, fn.name))
 
 
+def _src(n):
+    try:
+        return extract.unparse(n)
+    except Exception:  # noqa: BLE001
+        return "<unparsable>"
+
+
+def _try(fn, default):
+    """value of fn(), `default` when the enclosing function/class is gone (used by the TOTAL extractors)."""
+    try:
+        return fn()
+    except NotRecognised:
+        return default
+
+
+FRONT = {"cpu_percent": ("_last_cpu_times", "_last_per_cpu_times"),
+         "cpu_times_percent": ("_last_cpu_times_2", "_last_per_cpu_times_2")}
+
+
 # ------------------------------------------------------------------ _pslinux.py
 
 def scputimes_fields(tree):
+    """(base, opt) — TOTAL below the function: an `if` of another shape becomes the item (0, "?<test>: <body>")."""
     fn = extract.find_def(tree, "set_scputimes_ntuple")
     base, opt = None, []
     for st in fn.body:
-        if isinstance(st, ast.Assign) and len(st.targets) == 1 and extract.dotted(st.targets[0]) == "fields" \
-                and isinstance(st.value, ast.List):
-            base = [extract.const(e) for e in st.value.elts]
+        if isinstance(st, ast.Assign) and len(st.targets) == 1 and extract.dotted(st.targets[0]) == "fields":
+            if isinstance(st.value, ast.List) and all(isinstance(e, ast.Constant) and isinstance(e.value, str)
+                                                      for e in st.value.elts):
+                base = [e.value for e in st.value.elts]
+            else:
+                base = ["?" + _src(st.value)]
         elif isinstance(st, ast.If):
             t = st.test
-            if not (isinstance(t, ast.Compare) and extract.dotted(t.left) == "vlen" and len(t.ops) == 1
-                    and isinstance(t.ops[0], ast.GtE)):
-                raise NotRecognised("unexpected test in set_scputimes_ntuple: %s" % extract.unparse(t))
-            thr = _num_nat(t.comparators[0])
-            if st.orelse or len(st.body) != 1:
-                raise NotRecognised("unexpected if body in set_scputimes_ntuple")
-            c = st.body[0]
-            if not (isinstance(c, ast.Expr) and isinstance(c.value, ast.Call)
-                    and extract.dotted(c.value.func) == "fields.append" and len(c.value.args) == 1):
-                raise NotRecognised("unexpected statement under vlen test")
-            opt.append((thr, extract.const(c.value.args[0])))
+            ok = (isinstance(t, ast.Compare) and extract.dotted(t.left) == "vlen" and len(t.ops) == 1
+                  and isinstance(t.ops[0], ast.GtE) and not st.orelse and len(st.body) == 1)
+            c = st.body[0] if st.body else None
+            ok = ok and isinstance(c, ast.Expr) and isinstance(c.value, ast.Call) \
+                and extract.dotted(c.value.func) == "fields.append" and len(c.value.args) == 1 \
+                and isinstance(c.value.args[0], ast.Constant) and isinstance(c.value.args[0].value, str)
+            try:
+                thr = _num_nat(t.comparators[0]) if ok else 0
+            except NotRecognised:
+                ok, thr = False, 0
+            if ok:
+                opt.append((thr, c.value.args[0].value))
+            else:
+                opt.append((0, "?" + _src(st).replace("\n", " ")[:120]))
     if base is None:
-        raise NotRecognised("fields = [...] not found")
-    # vlen = len(values); values = f.readline().split()[1:]
-    src = extract.unparse(fn)
-    if "vlen = len(values)" not in src or "f.readline().split()[1:]" not in src:
-        raise NotRecognised("vlen/values derivation changed")
+        base = ["?no `fields = [...]`"]
     return base, opt
 
 
-def _slice_and_div(fn):
-    """(from, extra, divides_by_CLOCK_TICKS) of `fields = values[a : len(scputimes._fields) + b]`."""
-    sl = None
-    div = 0
+def _conv_and_slice(fn):
+    """the assignments to `fields` in a parser: (slice nodes, list-comprehension sources)"""
+    slices, convs = [], []
     for n in ast.walk(fn):
         if isinstance(n, ast.Assign) and extract.dotted(n.targets[0]) == "fields":
-            v = n.value
-            if isinstance(v, ast.Subscript) and extract.dotted(v.value) == "values" and isinstance(v.slice, ast.Slice):
-                lo, hi = v.slice.lower, v.slice.upper
-                if v.slice.step is not None or lo is None or hi is None:
-                    raise NotRecognised("slice shape")
-                if not (isinstance(hi, ast.BinOp) and isinstance(hi.op, ast.Add)
-                        and extract.unparse(hi.left) == "len(scputimes._fields)"):
-                    raise NotRecognised("slice upper bound: %s" % extract.unparse(hi))
-                if sl is not None:
-                    raise NotRecognised("two slices")
-                sl = (_num_nat(lo), _num_nat(hi.right))
-            elif isinstance(v, ast.ListComp):
-                if extract.unparse(v) == "[float(x) / CLOCK_TICKS for x in fields]":
-                    div += 1
-                else:
-                    raise NotRecognised("conversion is %s" % extract.unparse(v))
-    if sl is None or div != 1:
-        raise NotRecognised("slice/conversion not found in %s" % fn.name)
-    if "scputimes(*fields)" not in extract.unparse(fn):
-        raise NotRecognised("scputimes(*fields) not found")
-    return sl[0], sl[1], True
+            if isinstance(n.value, ast.Subscript):
+                slices.append(n.value)
+            else:
+                convs.append(_src(n.value))
+    return slices, convs
+
+
+def slice_of(fn):
+    """(a, b) of `fields = values[a : len(scputimes._fields) + b]`"""
+    slices, _ = _conv_and_slice(fn)
+    if len(slices) != 1:
+        raise NotRecognised("%s: %d slices assigned to `fields`" % (fn.name, len(slices)))
+    v = slices[0]
+    if not (extract.dotted(v.value) == "values" and isinstance(v.slice, ast.Slice)):
+        raise NotRecognised("slice shape: %s" % _src(v))
+    lo, hi = v.slice.lower, v.slice.upper
+    if v.slice.step is not None or lo is None or hi is None:
+        raise NotRecognised("slice shape: %s" % _src(v))
+    if not (isinstance(hi, ast.BinOp) and isinstance(hi.op, ast.Add)
+            and extract.unparse(hi.left) == "len(scputimes._fields)"):
+        raise NotRecognised("slice upper bound: %s" % extract.unparse(hi))
+    return _num_nat(lo), _num_nat(hi.right)
+
+
+CONV = "[float(x) / CLOCK_TICKS for x in fields]"
+
+
+def conv_exprs(tree):
+    """TOTAL: what is assigned to `fields` besides the slice, per parser, in source order."""
+    out = []
+    for name in ("cpu_times", "per_cpu_times"):
+        fn = _try(lambda: extract.find_def(tree, name), None)
+        if fn is None:
+            out.append("%s:?missing" % name)
+            continue
+        _, convs = _conv_and_slice(fn)
+        out += ["%s:%s" % (name, c) for c in convs] or ["%s:?no conversion" % name]
+        if "scputimes(*fields)" not in _src(fn):
+            out.append("%s:?no scputimes(*fields)" % name)
+    return out
+
+
+CONV_WANT = ["cpu_times:" + CONV, "per_cpu_times:" + CONV]
 
 
 def percpu_prefix(fn):
     found = []
     for n in ast.walk(fn):
-        if isinstance(n, ast.If) and isinstance(n.test, ast.Call) and extract.dotted(n.test.func) == "line.startswith":
-            found.append(extract.const(n.test.args[0]))
-    if len(found) != 1 or not isinstance(found[0], bytes):
-        raise NotRecognised("line.startswith(b'…') not found exactly once")
-    src = extract.unparse(fn)
-    if "f.readline()" not in src or "line.split()" not in src:
-        raise NotRecognised("per_cpu_times no longer skips the first line / splits on blanks")
+        if isinstance(n, ast.If) and isinstance(n.test, ast.Call) and extract.dotted(n.test.func) == "line.startswith" \
+                and len(n.test.args) == 1 and isinstance(n.test.args[0], ast.Constant) \
+                and isinstance(n.test.args[0].value, bytes):
+            found.append(n.test.args[0].value)
+    if len(found) != 1:
+        return ("?%d" % len(found)).encode()          # TOTAL: a prefix no kernel line has
     return found[0]
+
+
+def module_assignments(tree, name):
+    """TOTAL: source of every value bound to the global `name` anywhere in the module (module level, or inside a
+    function that declares it `global`), in source order."""
+    out = []
+    for n in ast.walk(tree):
+        tg = []
+        if isinstance(n, ast.Assign):
+            for t in n.targets:
+                tg += t.elts if isinstance(t, (ast.Tuple, ast.List)) else [t]
+        elif isinstance(n, (ast.AugAssign, ast.AnnAssign)):
+            tg = [n.target]
+        if any(isinstance(t, ast.Name) and t.id == name for t in tg):
+            if n in tree.body:
+                out.append(_src(n.value) if getattr(n, "value", None) is not None else "?" + _src(n))
+            else:
+                # only counts when it can reach the global: inside a function with `global name`
+                for f in ast.walk(tree):
+                    if isinstance(f, (ast.FunctionDef, ast.AsyncFunctionDef)) and n in list(ast.walk(f)) and \
+                            any(isinstance(g, ast.Global) and name in g.names for g in ast.walk(f)):
+                        out.append("?in %s: %s" % (f.name, _src(n)))
+                        break
+                else:
+                    if not any(isinstance(f, (ast.FunctionDef, ast.AsyncFunctionDef, ast.ClassDef, ast.Lambda))
+                               and n in list(ast.walk(f)) for f in tree.body):
+                        out.append("?nested: " + _src(n))
+    return out
 
 
 # ------------------------------------------------------------------ __init__.py
@@ -106,70 +179,66 @@ def percpu_prefix(fn):
 def _getattr_default0(node, obj):
     """name if node is `getattr(obj, 'name', 0)`."""
     if isinstance(node, ast.Call) and extract.dotted(node.func) == "getattr" and len(node.args) == 3 \
-            and extract.dotted(node.args[0]) == obj and extract.const(node.args[2]) == 0:
-        return extract.const(node.args[1])
+            and extract.dotted(node.args[0]) == obj and isinstance(node.args[2], ast.Constant) \
+            and node.args[2].value == 0 and not isinstance(node.args[2].value, bool) \
+            and isinstance(node.args[1], ast.Constant) and isinstance(node.args[1].value, str):
+        return node.args[1].value
     return None
 
 
 def _sub_lists(fn, acc, obj):
-    """AugAssign `acc -= …` statements of fn (also inside `if LINUX:`): (required attrs, optional attrs)."""
+    """TOTAL: every statement that updates `acc` after its first assignment → (required attrs, optional attrs);
+    anything that is not `acc -= obj.name` / `acc -= getattr(obj, 'name', 0)` becomes the item "?<source>"."""
     req, opt = [], []
+    first = True
     for n in ast.walk(fn):
         if isinstance(n, ast.AugAssign) and extract.dotted(n.target) == acc:
-            if not isinstance(n.op, ast.Sub):
-                raise NotRecognised("%s is updated with %s" % (acc, type(n.op).__name__))
             g = _getattr_default0(n.value, obj)
-            if g is not None:
+            if not isinstance(n.op, ast.Sub):
+                opt.append("?" + _src(n))
+            elif g is not None:
                 opt.append(g)
             elif isinstance(n.value, ast.Attribute) and extract.dotted(n.value.value) == obj:
                 req.append(n.value.attr)
             else:
-                raise NotRecognised("unexpected subtraction %s" % extract.unparse(n))
+                opt.append("?" + _src(n))
+        elif isinstance(n, ast.Assign) and any(extract.dotted(t) == acc for t in n.targets):
+            if not first:
+                opt.append("?" + _src(n))
+            first = False
     return req, opt
 
 
 def tot_sub(tree):
     fn = extract.find_def(tree, "_cpu_tot_time")
     req, opt = _sub_lists(fn, "tot", "times")
-    src = extract.unparse(fn)
-    if req or "tot = sum(times)" not in src or "return tot" not in src:
-        raise NotRecognised("_cpu_tot_time shape")
+    opt += ["?required: " + r for r in req]
     for n in ast.walk(fn):
         if isinstance(n, ast.If) and extract.dotted(n.test) != "LINUX":
-            raise NotRecognised("unexpected condition in _cpu_tot_time")
+            opt.append("?if " + _src(n.test))
     return opt
 
 
 def busy_sub(tree):
     fn = extract.find_def(tree, "_cpu_busy_time")
-    req, opt = _sub_lists(fn, "busy", "times")
-    src = extract.unparse(fn)
-    if "busy = _cpu_tot_time(times)" not in src or "return busy" not in src:
-        raise NotRecognised("_cpu_busy_time shape")
-    return req, opt
+    return _sub_lists(fn, "busy", "times")
 
 
 def clip_zero(tree):
-    fn = extract.find_def(tree, "_cpu_times_deltas")
-    src = extract.unparse(fn)
-    if "field_delta = getattr(t2, field) - getattr(t1, field)" not in src \
-            or "for field in _psplatform.scputimes._fields" not in src \
-            or "field_deltas.append(field_delta)" not in src:
-        raise NotRecognised("_cpu_times_deltas shape")
-    clips = [n for n in ast.walk(fn) if isinstance(n, ast.Assign) and extract.dotted(n.targets[0]) == "field_delta"
-             and isinstance(n.value, ast.Call) and extract.dotted(n.value.func) in ("max", "min")]
-    if not clips:
+    """TOTAL Bool: the one clipping statement of _cpu_times_deltas is `field_delta = max(0, field_delta)`."""
+    fn = _try(lambda: extract.find_def(tree, "_cpu_times_deltas"), None)
+    if fn is None:
         return False
-    if len(clips) == 1 and extract.unparse(clips[0].value) == "max(0, field_delta)":
-        return True
-    raise NotRecognised("clipping is %s" % [extract.unparse(c) for c in clips])
+    clips = [n for n in ast.walk(fn) if isinstance(n, ast.Assign) and extract.dotted(n.targets[0]) == "field_delta"
+             and not _src(n.value).startswith("getattr(t2, field)")]
+    return len(clips) == 1 and _src(clips[0].value) == "max(0, field_delta)"
 
 
 def _round_call(fn, var):
     out = []
     for n in ast.walk(fn):
         if isinstance(n, ast.Call) and extract.dotted(n.func) == "round" and len(n.args) == 2 \
-                and extract.dotted(n.args[0]) == var:
+                and extract.dotted(n.args[0]) == var and not n.keywords:
             out.append(_num_nat(n.args[1]))
     if len(out) != 1:
         raise NotRecognised("round(%s, d) not found exactly once" % var)
@@ -178,129 +247,160 @@ def _round_call(fn, var):
 
 def _zero_div_returns_zero(fn):
     for n in ast.walk(fn):
-        if isinstance(n, ast.ExceptHandler) and extract.dotted(n.type) == "ZeroDivisionError":
-            if len(n.body) >= 1 and isinstance(n.body[-1], ast.Return) and extract.const(n.body[-1].value) == 0.0:
+        if isinstance(n, ast.ExceptHandler) and n.type is not None and extract.dotted(n.type) == "ZeroDivisionError":
+            if len(n.body) >= 1 and isinstance(n.body[-1], ast.Return) and isinstance(n.body[-1].value, ast.Constant) \
+                    and n.body[-1].value.value == 0.0:
                 return True
     return False
 
 
-def percent_calc(tree):
-    fn = _nested_def(extract.find_def(tree, "cpu_percent"), "calculate")
-    src = extract.unparse(fn)
-    for want in ("times_delta = _cpu_times_deltas(t1, t2)", "all_delta = _cpu_tot_time(times_delta)",
-                 "busy_delta = _cpu_busy_time(times_delta)"):
-        if want not in src:
-            raise NotRecognised("cpu_percent.calculate: %s missing" % want)
-    factor = None
-    for n in ast.walk(fn):
-        if isinstance(n, ast.Assign) and extract.dotted(n.targets[0]) == "busy_perc":
-            v = n.value
-            if isinstance(v, ast.BinOp) and isinstance(v.op, ast.Mult) \
-                    and extract.unparse(v.left) == "busy_delta / all_delta":
-                factor = _num_nat(v.right)
-            else:
-                raise NotRecognised("busy_perc = %s" % extract.unparse(v))
-    if factor is None:
-        raise NotRecognised("busy_perc assignment not found")
-    if not _zero_div_returns_zero(fn):
-        raise NotRecognised("ZeroDivisionError no longer returns 0.0")
-    return factor, _round_call(fn, "busy_perc")
+def _pct_calc(tree):
+    return _nested_def(extract.find_def(tree, "cpu_percent"), "calculate")
 
 
-def times_percent_calc(tree):
-    """(numer, maxOne, digits, lo, hi)"""
-    fn = _nested_def(extract.find_def(tree, "cpu_times_percent"), "calculate")
-    src = extract.unparse(fn)
-    for want in ("times_delta = _cpu_times_deltas(t1, t2)", "all_delta = _cpu_tot_time(times_delta)",
-                 "for field_delta in times_delta", "field_perc = field_delta * scale"):
-        if want not in src:
-            raise NotRecognised("cpu_times_percent.calculate: %s missing" % want)
-    numer = max_one = None
-    lo = hi = None
-    for n in ast.walk(fn):
-        if isinstance(n, ast.Assign) and extract.dotted(n.targets[0]) == "scale":
-            v = n.value
-            if isinstance(v, ast.BinOp) and isinstance(v.op, ast.Div) and extract.unparse(v.right) == "max(1, all_delta)":
-                numer, max_one = _num_nat(v.left), True
-            elif isinstance(v, ast.IfExp) and extract.unparse(v.test) == "all_delta > 0" \
-                    and isinstance(v.body, ast.BinOp) and isinstance(v.body.op, ast.Div) \
-                    and extract.dotted(v.body.right) == "all_delta" and extract.const(v.orelse) == 0.0:
-                numer, max_one = _num_nat(v.body.left), False
-            else:
-                raise NotRecognised("scale = %s" % extract.unparse(v))
-        if isinstance(n, ast.Assign) and extract.dotted(n.targets[0]) == "field_perc" \
-                and isinstance(n.value, ast.Call) and extract.dotted(n.value.func) == "min":
-            a = n.value.args
-            if len(a) == 2 and isinstance(a[0], ast.Call) and extract.dotted(a[0].func) == "max" \
-                    and len(a[0].args) == 2 and extract.dotted(a[0].args[1]) == "field_perc":
-                lo, hi = _num_nat(a[0].args[0]), _num_nat(a[1])
-            else:
-                raise NotRecognised("clamp is %s" % extract.unparse(n.value))
-    if numer is None:
-        raise NotRecognised("scale assignment not found")
-    if lo is None:
-        raise NotRecognised("clamp not found")
-    return numer, max_one, _round_call(fn, "field_perc"), lo, hi
+def pct_factor(tree):
+    fn = _pct_calc(tree)
+    found = [n.value for n in ast.walk(fn) if isinstance(n, ast.Assign) and extract.dotted(n.targets[0]) == "busy_perc"]
+    if len(found) != 1:
+        raise NotRecognised("busy_perc assigned %d times" % len(found))
+    v = found[0]
+    if isinstance(v, ast.BinOp) and isinstance(v.op, ast.Mult) and extract.unparse(v.left) == "busy_delta / all_delta":
+        return _num_nat(v.right)
+    raise NotRecognised("busy_perc = %s" % extract.unparse(v))
+
+
+def pct_digits(tree):
+    return _round_call(_pct_calc(tree), "busy_perc")
+
+
+def _tp_calc(tree):
+    return _nested_def(extract.find_def(tree, "cpu_times_percent"), "calculate")
+
+
+def tp_scale(tree):
+    """(numer, maxOne) — both read off the ONE statement `scale = …`."""
+    fn = _tp_calc(tree)
+    found = [n.value for n in ast.walk(fn) if isinstance(n, ast.Assign) and extract.dotted(n.targets[0]) == "scale"]
+    if len(found) != 1:
+        raise NotRecognised("scale assigned %d times" % len(found))
+    v = found[0]
+    if isinstance(v, ast.BinOp) and isinstance(v.op, ast.Div) and extract.unparse(v.right) == "max(1, all_delta)":
+        return _num_nat(v.left), True
+    if isinstance(v, ast.IfExp) and extract.unparse(v.test) == "all_delta > 0" \
+            and isinstance(v.body, ast.BinOp) and isinstance(v.body.op, ast.Div) \
+            and extract.dotted(v.body.right) == "all_delta" and isinstance(v.orelse, ast.Constant) \
+            and v.orelse.value == 0.0:
+        return _num_nat(v.body.left), False
+    raise NotRecognised("scale = %s" % extract.unparse(v))
+
+
+def tp_digits(tree):
+    return _round_call(_tp_calc(tree), "field_perc")
+
+
+def tp_clamp(tree):
+    fn = _tp_calc(tree)
+    found = [n.value for n in ast.walk(fn) if isinstance(n, ast.Assign) and extract.dotted(n.targets[0]) == "field_perc"
+             and isinstance(n.value, ast.Call) and extract.dotted(n.value.func) in ("min", "max")]
+    if len(found) != 1:
+        raise NotRecognised("clamp statements: %d" % len(found))
+    a = found[0].args
+    if extract.dotted(found[0].func) == "min" and len(a) == 2 and isinstance(a[0], ast.Call) \
+            and extract.dotted(a[0].func) == "max" and len(a[0].args) == 2 \
+            and extract.dotted(a[0].args[1]) == "field_perc":
+        return _num_nat(a[0].args[0]), _num_nat(a[1])
+    raise NotRecognised("clamp is %s" % extract.unparse(found[0]))
 
 
 def dict_use(tree):
-    """For each front end and branch: the dictionary read with .get(tid), written with [tid] = and re-read."""
-    want = {"cpu_percent": ("_last_cpu_times", "_last_per_cpu_times"),
-            "cpu_times_percent": ("_last_cpu_times_2", "_last_per_cpu_times_2")}
+    """TOTAL Bool. For each front end and branch: the dictionary read with .get(tid), written with [tid] = and re-read;
+    the _2 dictionaries are copies."""
     seen = []
-    for fname, (sysd, perd) in want.items():
-        fn = extract.find_def(tree, fname)
+    for fname, (sysd, perd) in FRONT.items():
+        fn = _try(lambda: extract.find_def(tree, fname), None)
+        if fn is None:
+            return False
         src = extract.unparse(fn)
         for d, call in ((sysd, "cpu_times()"), (perd, "cpu_times(percpu=True)")):
             for pat in ("%s.get(tid) or %s" % (d, call), "%s[tid] = %s" % (d, call)):
                 if pat not in src:
-                    raise NotRecognised("%s: `%s` not found" % (fname, pat))
+                    return False
         if "return calculate(t1, %s[tid])" % sysd not in src or "zip(tot1, %s[tid])" % perd not in src:
-            raise NotRecognised("%s: result no longer computed against the stored sample" % fname)
+            return False
         names = {extract.dotted(n.value) for n in ast.walk(fn)
                  if isinstance(n, ast.Subscript) and extract.dotted(n.slice) == "tid"}
         names |= {extract.dotted(n.func.value) for n in ast.walk(fn)
                   if isinstance(n, ast.Call) and isinstance(n.func, ast.Attribute) and n.func.attr == "get"}
         if names != {sysd, perd}:
-            raise NotRecognised("%s uses dictionaries %s" % (fname, sorted(names)))
+            return False
         if "tid = threading.current_thread().ident" not in src:
-            raise NotRecognised("%s: tid derivation changed" % fname)
+            return False
         seen += [sysd, perd]
-    # the _2 dictionaries must be copies (distinct objects), not aliases
     msrc = extract.unparse(tree)
     for a, b in (("_last_cpu_times_2", "_last_cpu_times"), ("_last_per_cpu_times_2", "_last_per_cpu_times")):
         if "%s = %s.copy()" % (a, b) not in msrc:
-            raise NotRecognised("%s is not %s.copy()" % (a, b))
+            return False
     return len(set(seen)) == 4
 
 
-def blocking_stores(tree):
-    """In each of the four branches the statement `_last_X[tid] = cpu_times(…)` that files the NEWEST sample under the
-    calling thread stands after the `if blocking: … else: …` statement, not inside it: the blocking form stores its
-    post-sleep sample exactly like the non-blocking form. True: all four are unconditional; False: at least one is
-    nested under a test on `blocking`/`interval`; anything else: NotRecognised."""
-    want = {"cpu_percent": ("_last_cpu_times", "_last_per_cpu_times"),
-            "cpu_times_percent": ("_last_cpu_times_2", "_last_per_cpu_times_2")}
-    all_uncond = True
-    for fname, (sysd, perd) in want.items():
-        fn = extract.find_def(tree, fname)
-        top = [n for n in fn.body if isinstance(n, ast.If) and extract.unparse(n.test) == "not percpu"]
+def _branches(tree):
+    """[(label, statements of that branch)] for the four (function, percpu) branches; None when `if not percpu:` is gone."""
+    out = []
+    for fname, (sysd, perd) in FRONT.items():
+        fn = _try(lambda: extract.find_def(tree, fname), None)
+        top = [n for n in fn.body if isinstance(n, ast.If) and extract.unparse(n.test) == "not percpu"] if fn else []
         if len(top) != 1:
-            raise NotRecognised("%s: `if not percpu:` not found exactly once at function level" % fname)
-        for d, call, block in ((sysd, "cpu_times()", top[0].body), (perd, "cpu_times(percpu=True)", top[0].orelse)):
-            pat = "%s[tid] = %s" % (d, call)
-            direct = [n for n in block if isinstance(n, ast.Assign) and extract.unparse(n) == pat]
-            anywhere = [n for b in block for n in ast.walk(b) if isinstance(n, ast.Assign) and extract.unparse(n) == pat]
-            if len(anywhere) != 1:
-                raise NotRecognised("%s: `%s` occurs %d times in its branch" % (fname, pat, len(anywhere)))
-            guards = [n for n in block if isinstance(n, ast.If) and extract.unparse(n.test) == "blocking"]
-            if len(guards) != 1:
-                raise NotRecognised("%s: `if blocking:` not found exactly once in the branch of %s" % (fname, d))
-            if not direct:
-                all_uncond = False
-            elif block.index(direct[0]) < block.index(guards[0]):
-                raise NotRecognised("%s: `%s` precedes the `if blocking:` statement" % (fname, pat))
-    return all_uncond
+            out += [(fname, sysd, "cpu_times()", None), (fname, perd, "cpu_times(percpu=True)", None)]
+        else:
+            out += [(fname, sysd, "cpu_times()", top[0].body), (fname, perd, "cpu_times(percpu=True)", top[0].orelse)]
+    return out
+
+
+def blocking_stores(tree):
+    """TOTAL Bool: in each of the four branches the ONE statement `_last_X[tid] = cpu_times(…)` stands directly in the
+    branch, after its one `if blocking: … else: …` statement."""
+    for fname, d, call, block in _branches(tree):
+        if block is None:
+            return False
+        pat = "%s[tid] = %s" % (d, call)
+        direct = [n for n in block if isinstance(n, ast.Assign) and extract.unparse(n) == pat]
+        anywhere = [n for b in block for n in ast.walk(b) if isinstance(n, ast.Assign) and extract.unparse(n) == pat]
+        guards = [n for n in block if isinstance(n, ast.If) and extract.unparse(n.test) == "blocking"]
+        if len(anywhere) != 1 or len(guards) != 1 or not direct:
+            return False
+        if block.index(direct[0]) < block.index(guards[0]):
+            return False
+    return True
+
+
+def blocking_bodies(tree):
+    """TOTAL: the statements of the `if blocking:` body of each of the four branches and of Process.cpu_percent, in
+    source order — first sample, THEN time.sleep(interval) (audit item 1: the order and the argument of the sleep)."""
+    out = []
+    for fname, d, call, block in _branches(tree):
+        guards = [n for n in (block or []) if isinstance(n, ast.If) and extract.unparse(n.test) == "blocking"]
+        out.append([_src(s) for s in guards[0].body] if len(guards) == 1 else ["?%d `if blocking:`" % len(guards)])
+    fn = _try(lambda: extract.find_def(tree, "cpu_percent", cls="Process"), None)
+    guards = [n for n in (fn.body if fn else []) if isinstance(n, ast.If) and extract.unparse(n.test) == "blocking"]
+    out.append([_src(s) for s in guards[0].body] if len(guards) == 1 else ["?%d `if blocking:`" % len(guards)])
+    return out
+
+
+def sleep_sites(tree):
+    """TOTAL: every call whose callee mentions `sleep` in the three front ends (helpers nested in them included), as
+    `function: source`, in source order."""
+    out = []
+    for label, getter in (("cpu_percent", lambda: extract.find_def(tree, "cpu_percent")),
+                          ("cpu_times_percent", lambda: extract.find_def(tree, "cpu_times_percent")),
+                          ("Process.cpu_percent", lambda: extract.find_def(tree, "cpu_percent", cls="Process"))):
+        fn = _try(getter, None)
+        if fn is None:
+            out.append("%s: ?missing" % label)
+            continue
+        calls = [n for n in ast.walk(fn) if isinstance(n, ast.Call) and "sleep" in _src(n.func)]
+        calls.sort(key=lambda n: (n.lineno, n.col_offset))
+        out += ["%s: %s" % (label, _src(n)) for n in calls]
+    return out
 
 
 def interval_guard(fn):
@@ -309,12 +409,16 @@ def interval_guard(fn):
             and "if interval is not None and interval < 0:" in src and "raise ValueError(msg)" in src)
 
 
+def _proc_fn(tree):
+    return extract.find_def(tree, "cpu_percent", cls="Process")
+
+
 def proc_scale_delta(tree):
     """How Process.cpu_percent measures the wall clock between two samples.
     False: `timer()` = `_timer() * num_cpus` is what is remembered, `delta_time = st2 - st1` (as found);
     True : the raw `_timer()` is remembered, `delta_time = (st2 - st1) * num_cpus` (repaired shape).
     Anything else: NotRecognised."""
-    fn = extract.find_def(tree, "cpu_percent", cls="Process")
+    fn = _proc_fn(tree)
     src = extract.unparse(fn)
     nested = [n for n in fn.body if isinstance(n, ast.FunctionDef)]
     stamps = [extract.unparse(n.value) for n in ast.walk(fn)
@@ -335,98 +439,193 @@ def proc_scale_delta(tree):
     return new
 
 
-def proc_percent(tree):
-    """(factor, digits, shape_ok)"""
-    fn = extract.find_def(tree, "cpu_percent", cls="Process")
-    src = extract.unparse(fn)
-    try:
-        proc_scale_delta(tree)
-        stamp_shape_known = True
-    except NotRecognised:
-        stamp_shape_known = False
-    shape = stamp_shape_known and all(p in src for p in (
-        "num_cpus = cpu_count() or 1",
-        "delta_proc = pt2.user - pt1.user + (pt2.system - pt1.system)",
-        "if st1 is None or pt1 is None:",
-        "single_cpu_percent = overall_cpus_percent * num_cpus",
-        "self._last_sys_cpu_times = st2",
-        "self._last_proc_cpu_times = pt2",
-    ))
-    factor = None
-    for n in ast.walk(fn):
-        if isinstance(n, ast.Assign) and extract.dotted(n.targets[0]) == "overall_cpus_percent":
-            v = n.value
-            if isinstance(v, ast.BinOp) and isinstance(v.op, ast.Mult) \
-                    and extract.unparse(v.left) == "delta_proc / delta_time":
-                factor = _num_nat(v.right)
-            else:
-                raise NotRecognised("overall_cpus_percent = %s" % extract.unparse(v))
-    if factor is None:
-        raise NotRecognised("overall_cpus_percent not found")
-    first_zero = False
-    for n in ast.walk(fn):
-        if isinstance(n, ast.If) and extract.unparse(n.test) == "st1 is None or pt1 is None":
-            first_zero = isinstance(n.body[-1], ast.Return) and extract.const(n.body[-1].value) == 0.0
-    shape = shape and first_zero and _zero_div_returns_zero(fn) and interval_guard(fn)
-    return factor, _round_call(fn, "single_cpu_percent"), shape
+def proc_factor(tree):
+    fn = _proc_fn(tree)
+    found = [n.value for n in ast.walk(fn) if isinstance(n, ast.Assign)
+             and extract.dotted(n.targets[0]) == "overall_cpus_percent"]
+    if len(found) != 1:
+        raise NotRecognised("overall_cpus_percent assigned %d times" % len(found))
+    v = found[0]
+    if isinstance(v, ast.BinOp) and isinstance(v.op, ast.Mult) and extract.unparse(v.left) == "delta_proc / delta_time":
+        return _num_nat(v.right)
+    raise NotRecognised("overall_cpus_percent = %s" % extract.unparse(v))
+
+
+def proc_digits(tree):
+    return _round_call(_proc_fn(tree), "single_cpu_percent")
+
+
+def proc_handlers(tree):
+    """TOTAL: the exception classes Process.cpu_percent catches itself, in source order (audit item 6: a
+    `try: self._proc.cpu_times() except NoSuchProcess: return 0.0` would hide a vanished process)."""
+    fn = _try(lambda: _proc_fn(tree), None)
+    if fn is None:
+        return ["?missing"]
+    hs = [n for n in ast.walk(fn) if isinstance(n, ast.ExceptHandler)]
+    hs.sort(key=lambda n: (n.lineno, n.col_offset))
+    return [_src(n.type) if n.type is not None else "?bare except" for n in hs]
+
+
+def proc_stores(tree):
+    """TOTAL: every assignment to an attribute of `self` in Process.cpu_percent, in source order, prefixed with the
+    tests of the `if` statements it is nested in (both stores happen twice: in the first-call branch and after the
+    arithmetic — deleting either one is visible here)."""
+    fn = _try(lambda: _proc_fn(tree), None)
+    if fn is None:
+        return ["?missing"]
+    out = []
+
+    def walk(stmts, ctx):
+        for s in stmts:
+            if isinstance(s, (ast.Assign, ast.AugAssign, ast.AnnAssign)):
+                tg = s.targets if isinstance(s, ast.Assign) else [s.target]
+                if any(extract.dotted(t).startswith("self.") for t in tg):
+                    out.append(ctx + _src(s))
+            elif isinstance(s, ast.If):
+                walk(s.body, ctx + "if %s: " % _src(s.test))
+                walk(s.orelse, ctx + "if not (%s): " % _src(s.test))
+            elif isinstance(s, ast.Try):
+                walk(s.body, ctx + "try: ")
+                for h in s.handlers:
+                    walk(h.body, ctx + "except: ")
+                walk(s.orelse, ctx + "else: ")
+                walk(s.finalbody, ctx + "finally: ")
+            elif isinstance(s, (ast.For, ast.While, ast.With)):
+                walk(s.body, ctx + "loop/with: ")
+    walk(fn.body, "")
+    return out
+
+
+PROC_STORES_WANT = [
+    "if not (blocking): if st1 is None or pt1 is None: self._last_sys_cpu_times = st2",
+    "if not (blocking): if st1 is None or pt1 is None: self._last_proc_cpu_times = pt2",
+    "self._last_sys_cpu_times = st2",
+    "self._last_proc_cpu_times = pt2",
+]
+
+
+def shape_missing(tree, linux):
+    """TOTAL: names of the fixed statement shapes (no degree of freedom in the model) that are NOT in the source."""
+    miss = []
+
+    def need(label, getter, pats=(), pred=None):
+        fn = _try(getter, None)
+        if fn is None:
+            miss.append(label + ": function missing")
+            return
+        src = extract.unparse(fn)
+        for p in pats:
+            if p not in src:
+                miss.append("%s: `%s`" % (label, p))
+        if pred is not None:
+            for name, ok in pred(fn):
+                if not ok:
+                    miss.append("%s: %s" % (label, name))
+
+    need("set_scputimes_ntuple", lambda: extract.find_def(linux, "set_scputimes_ntuple"),
+         ("vlen = len(values)", "f.readline().split()[1:]"))
+    need("cpu_times", lambda: extract.find_def(linux, "cpu_times"),
+         ("values = f.readline().split()", "return scputimes(*fields)"))
+    need("per_cpu_times", lambda: extract.find_def(linux, "per_cpu_times"),
+         ("f.readline()", "values = line.split()", "entry = scputimes(*fields)", "cpus.append(entry)", "for line in f"))
+    need("_cpu_tot_time", lambda: extract.find_def(tree, "_cpu_tot_time"), ("tot = sum(times)", "return tot"))
+    need("_cpu_busy_time", lambda: extract.find_def(tree, "_cpu_busy_time"),
+         ("busy = _cpu_tot_time(times)", "return busy"))
+    need("_cpu_times_deltas", lambda: extract.find_def(tree, "_cpu_times_deltas"),
+         ("field_delta = getattr(t2, field) - getattr(t1, field)", "for field in _psplatform.scputimes._fields",
+          "field_deltas.append(field_delta)", "return _psplatform.scputimes(*field_deltas)"))
+    need("cpu_percent.calculate", lambda: _pct_calc(tree),
+         ("times_delta = _cpu_times_deltas(t1, t2)", "all_delta = _cpu_tot_time(times_delta)",
+          "busy_delta = _cpu_busy_time(times_delta)", "return round(busy_perc, "),
+         lambda fn: [("except ZeroDivisionError: return 0.0", _zero_div_returns_zero(fn))])
+    need("cpu_times_percent.calculate", lambda: _tp_calc(tree),
+         ("times_delta = _cpu_times_deltas(t1, t2)", "all_delta = _cpu_tot_time(times_delta)",
+          "for field_delta in times_delta", "field_perc = field_delta * scale", "nums.append(field_perc)",
+          "return _psplatform.scputimes(*nums)"))
+    for f in ("cpu_percent", "cpu_times_percent"):
+        need(f, lambda f=f: extract.find_def(tree, f), (), lambda fn: [("interval guard", interval_guard(fn))])
+
+    def proc_pred(fn):
+        first_zero = False
+        for n in ast.walk(fn):
+            if isinstance(n, ast.If) and extract.unparse(n.test) == "st1 is None or pt1 is None":
+                first_zero = isinstance(n.body[-1], ast.Return) and isinstance(n.body[-1].value, ast.Constant) \
+                    and n.body[-1].value.value == 0.0
+        try:
+            proc_scale_delta(tree)
+            stamps = True
+        except NotRecognised:
+            stamps = False
+        return [("first call returns 0.0", first_zero), ("except ZeroDivisionError: return 0.0", _zero_div_returns_zero(fn)),
+                ("interval guard", interval_guard(fn)), ("one of the two known time-stamp shapes", stamps)]
+    need("Process.cpu_percent", lambda: _proc_fn(tree),
+         ("num_cpus = cpu_count() or 1", "delta_proc = pt2.user - pt1.user + (pt2.system - pt1.system)",
+          "if st1 is None or pt1 is None:", "single_cpu_percent = overall_cpus_percent * num_cpus",
+          "return round(single_cpu_percent, "), proc_pred)
+    return miss
 
 
 def facts(snap, F):
     init = extract.parse_module(snap, "__init__.py")
     linux = extract.parse_module(snap, "_pslinux.py")
-    memo = {}
+    LS = lambda xs: L(xs, S)
 
-    def m(key, fn):
-        if key not in memo:
-            memo[key] = fn()
-        return memo[key]
-
-    sf = lambda: m("sf", lambda: scputimes_fields(linux))
-    F.try_add("baseFields", "List String", lambda: L(sf()[0], S),
+    F.try_add("baseFields", "List String", lambda: LS(scputimes_fields(linux)[0]),
               "`fields = [...]` of set_scputimes_ntuple")
     F.try_add("optFields", "List (Nat × String)",
-              lambda: L(sf()[1], lambda p: extract.lean_pair(extract.lean_nat(p[0]), S(p[1]))),
-              "`if vlen >= N: fields.append(name)` in source order")
-    ct = lambda: m("ct", lambda: _slice_and_div(extract.find_def(linux, "cpu_times")))
-    pc = lambda: m("pc", lambda: _slice_and_div(extract.find_def(linux, "per_cpu_times")))
-    F.try_add("cpuTimesSlice", "Nat × Nat", lambda: extract.lean_pair(str(ct()[0]), str(ct()[1])),
+              lambda: L(scputimes_fields(linux)[1], lambda p: extract.lean_pair(extract.lean_nat(p[0]), S(p[1]))),
+              "`if vlen >= N: fields.append(name)` in source order (an `if` of another shape: (0, \"?source\"))")
+    F.try_add("cpuTimesSlice", "Nat × Nat",
+              lambda: extract.lean_pair(*map(str, slice_of(extract.find_def(linux, "cpu_times")))),
               "cpu_times: values[a : len(scputimes._fields) + b] as (a, b)")
-    F.try_add("perCpuSlice", "Nat × Nat", lambda: extract.lean_pair(str(pc()[0]), str(pc()[1])),
+    F.try_add("perCpuSlice", "Nat × Nat",
+              lambda: extract.lean_pair(*map(str, slice_of(extract.find_def(linux, "per_cpu_times")))),
               "per_cpu_times: values[a : len(scputimes._fields) + b] as (a, b)")
-    F.try_add("divTicks", "Bool", lambda: extract.lean_bool(ct()[2] and pc()[2]),
-              "both conversions are float(x) / CLOCK_TICKS")
+    F.try_add("divTicks", "Bool", lambda: extract.lean_bool(conv_exprs(linux) == CONV_WANT),
+              "both conversions are float(x) / CLOCK_TICKS (and nothing else is assigned to `fields` besides the slice)")
     F.try_add("perCpuPrefix", "List Nat",
               lambda: extract.lean_bytes(percpu_prefix(extract.find_def(linux, "per_cpu_times"))),
               "per_cpu_times keeps the lines that start with these bytes (after skipping the first line)")
     F.try_add("clipZero", "Bool", lambda: extract.lean_bool(clip_zero(init)),
               "_cpu_times_deltas: field_delta = max(0, field_delta)")
-    F.try_add("totSub", "List String", lambda: L(tot_sub(init), S),
-              "_cpu_tot_time: tot -= getattr(times, name, 0)")
-    bs = lambda: m("bs", lambda: busy_sub(init))
-    F.try_add("busySubReq", "List String", lambda: L(bs()[0], S), "_cpu_busy_time: busy -= times.name")
-    F.try_add("busySubOpt", "List String", lambda: L(bs()[1], S), "_cpu_busy_time: busy -= getattr(times, name, 0)")
-    pcalc = lambda: m("pcalc", lambda: percent_calc(init))
-    F.try_add("pctFactor", "Nat", lambda: str(pcalc()[0]), "cpu_percent: (busy_delta / all_delta) * N")
-    F.try_add("pctDigits", "Nat", lambda: str(pcalc()[1]), "cpu_percent: round(busy_perc, N)")
-    tp = lambda: m("tp", lambda: times_percent_calc(init))
-    F.try_add("tpNumer", "Nat", lambda: str(tp()[0]), "cpu_times_percent: scale = N / …")
-    F.try_add("tpMaxOne", "Bool", lambda: extract.lean_bool(tp()[1]),
+    F.try_add("totSub", "List String", lambda: LS(tot_sub(init)),
+              "_cpu_tot_time: tot -= getattr(times, name, 0) (any other update of `tot`: \"?source\")")
+    F.try_add("busySubReq", "List String", lambda: LS(busy_sub(init)[0]), "_cpu_busy_time: busy -= times.name")
+    F.try_add("busySubOpt", "List String", lambda: LS(busy_sub(init)[1]),
+              "_cpu_busy_time: busy -= getattr(times, name, 0) (any other update of `busy`: \"?source\")")
+    F.try_add("pctFactor", "Nat", lambda: str(pct_factor(init)), "cpu_percent: (busy_delta / all_delta) * N")
+    F.try_add("pctDigits", "Nat", lambda: str(pct_digits(init)), "cpu_percent: round(busy_perc, N)")
+    F.try_add("tpNumer", "Nat", lambda: str(tp_scale(init)[0]), "cpu_times_percent: scale = N / …")
+    F.try_add("tpMaxOne", "Bool", lambda: extract.lean_bool(tp_scale(init)[1]),
               "scale divides by max(1, all_delta) (true) or by all_delta when positive, else 0.0 (false)")
-    F.try_add("tpDigits", "Nat", lambda: str(tp()[2]), "cpu_times_percent: round(field_perc, N)")
-    F.try_add("tpClamp", "Nat × Nat", lambda: extract.lean_pair(str(tp()[3]), str(tp()[4])),
+    F.try_add("tpDigits", "Nat", lambda: str(tp_digits(init)), "cpu_times_percent: round(field_perc, N)")
+    F.try_add("tpClamp", "Nat × Nat", lambda: extract.lean_pair(*map(str, tp_clamp(init))),
               "cpu_times_percent: min(max(lo, field_perc), hi)")
     F.try_add("dictsDistinct", "Bool", lambda: extract.lean_bool(dict_use(init)),
               "each front-end branch reads/writes its own _last_* dictionary, the _2 ones being copies")
-    F.try_add("blockingStores", "Bool", lambda: extract.lean_bool(blocking_stores(init)),
-              "in all four branches `_last_X[tid] = cpu_times(…)` follows the `if blocking: … else: …` statement "
-              "(the blocking form files its post-sleep sample as the thread's last sample too)")
-    pp = lambda: m("pp", lambda: proc_percent(init))
-    F.try_add("procFactor", "Nat", lambda: str(pp()[0]), "Process.cpu_percent: (delta_proc / delta_time) * N")
-    F.try_add("procDigits", "Nat", lambda: str(pp()[1]), "Process.cpu_percent: round(single_cpu_percent, N)")
+    F.try_add("procFactor", "Nat", lambda: str(proc_factor(init)), "Process.cpu_percent: (delta_proc / delta_time) * N")
+    F.try_add("procDigits", "Nat", lambda: str(proc_digits(init)), "Process.cpu_percent: round(single_cpu_percent, N)")
+    F.try_add("shapeOk", "Bool", lambda: extract.lean_bool(not shape_missing(init, linux)),
+              "every fixed statement shape is present (= shapeMissing is empty): Process.cpu_percent (user+system, cpu_count() or 1, one of the two known time-stamp shapes, first call 0.0, ZeroDivisionError → 0.0), the three interval guards, tot = sum(times), busy = _cpu_tot_time(times), the parser's readline/split/scputimes(*fields)")
     F.try_add("procScaleDelta", "Bool", lambda: extract.lean_bool(proc_scale_delta(init)),
               "Process.cpu_percent remembers _timer() * num_cpus and subtracts (false) or remembers the raw _timer() and "
               "scales the difference by the current num_cpus (true)")
-    F.try_add("shapeOk", "Bool",
-              lambda: extract.lean_bool(pp()[2] and interval_guard(extract.find_def(init, "cpu_percent"))
-                                        and interval_guard(extract.find_def(init, "cpu_times_percent"))),
-              "Process.cpu_percent statement shape (user+system, cpu_count() or 1, one of the two known time-stamp shapes, first call 0.0, ZeroDivisionError → 0.0) and the three interval guards")
+    F.try_add("blockingStores", "Bool", lambda: extract.lean_bool(blocking_stores(init)),
+              "in all four branches `_last_X[tid] = cpu_times(…)` follows the `if blocking: … else: …` statement "
+              "(the blocking form files its post-sleep sample as the thread's last sample too)")
+    # ---- round 3
+    F.try_add("shapeMissing", "List String", lambda: LS(shape_missing(init, linux)),
+              "the fixed statement shapes that are NOT in the source (empty on the tree the proofs were made on)")
+    F.try_add("blockingBodies", "List (List String)", lambda: L(blocking_bodies(init), LS),
+              "statements of the `if blocking:` body of cpu_percent (system-wide, per-CPU), cpu_times_percent (system-wide, "
+              "per-CPU) and Process.cpu_percent, in source order: first sample, THEN time.sleep(interval)")
+    F.try_add("sleepSites", "List String", lambda: LS(sleep_sites(init)),
+              "every call of a `…sleep…` callee in the three front ends, as `function: source`")
+    F.try_add("clockTicksDef", "List String", lambda: LS(module_assignments(linux, "CLOCK_TICKS")),
+              "every value bound to _pslinux.CLOCK_TICKS (the divisor of every counter)")
+    F.try_add("timerDef", "List String", lambda: LS(module_assignments(init, "_timer")),
+              "every value bound to psutil._timer (the wall clock of Process.cpu_percent)")
+    F.try_add("procHandlers", "List String", lambda: LS(proc_handlers(init)),
+              "exception classes Process.cpu_percent catches itself")
+    F.try_add("procStores", "List String", lambda: LS(proc_stores(init)),
+              "assignments to attributes of self in Process.cpu_percent with the `if` tests they are nested in")
